@@ -129,7 +129,10 @@ def _build(d):
             # DATE(y,m,d) result, a cell holding the serial, a cell holding
             # =DATE(y,m,d); DATEDIF unit in lower case / from a cell
             'ak': d.choice(['serial', 'serial', 'date', 'cell', 'datecell']),
-            'lc': d.pick(3) == 0}
+            'lc': d.pick(3) == 0,
+            # YEARFRAC with the later date first (the function is symmetric:
+            # it exchanges its dates when start > end)
+            'rev': d.pick(3) == 0}
 
 
 def strategy(tier):
@@ -331,8 +334,18 @@ def _pair_case(case, res):
                         x if ak == 'cell' else '=' + dtxt)
                     sp.append('B%d' % (i + 1))
         text = '=%s(%s)' % (fn, ','.join(sp))
-        return lib.eval_formula(text, cells or None,
-                                addr='Sheet1!Z1')[0], [text, cells]
+        out = lib.eval_formula(text, cells or None, addr='Sheet1!Z1')[0]
+        if out[0] == 'N' and len(sp) >= 2 and sp[0][:1] == 'B' \
+                and sp[1][:1] == 'B':
+            # the function must leave its ARGUMENTS alone: read the two date
+            # cells again in the same formula, after the call
+            t2 = '=%s(%s)*0+(%s-%s)' % (fn, ','.join(sp), sp[1], sp[0])
+            o2 = lib.eval_formula(t2, cells, addr='Sheet1!Z1')[0]
+            w2 = N(args[1] - args[0])
+            if o2 != w2:
+                res.fail('arguments-changed-by-call:%s' % fn, w2, o2,
+                         [t2, cells])
+        return out, [text, cells]
     if f == 'DAYS':
         o, note = run('DAYS', b, a)
         want = N(days)
@@ -378,7 +391,11 @@ def _pair_case(case, res):
         else:
             want = N(days / 365.0)
         tol = max(tol, 1e-12)
-        o, note = run('YEARFRAC', a, b, basis)
+        if case.get('rev'):
+            o, note = run('YEARFRAC', b, a, basis)
+            res.labels += ('later-date-first',)
+        else:
+            o, note = run('YEARFRAC', a, b, basis)
     ok = o == want or (o[0] == 'N' and isinstance(o[1], float)
                        and abs(o[1] - want[1]) <= tol)
     if not ok:
